@@ -268,6 +268,10 @@ pub fn evaluate_isolated(prop: Prop, trace: &Trace) -> Isolated {
             res.executions = res.executions.max(1);
             None
         }
+        Status::Exited(c) if c == simalloc::EXIT_HARNESS_LIMIT => {
+            res.herr = Some("the run outgrew the simulated heap (arena or block table exhausted)".to_string());
+            None
+        }
         Status::Exited(c) => {
             res.herr = Some(format!("child exited with code {c} without completing"));
             None
